@@ -206,9 +206,15 @@ C = (np.repeat(np.atleast_2d(np.diag(Z)), n, 0) - Z) / W
 def _mfpt(prog, rep):
     f = prog.func(DIST, 'mean_first_passage_time')
     body = [s for s in _body(f) if not isinstance(s, ast.If)]
-    env, vn = result_term(prog, f, body)
+    import sympy as sp
+
+    def _positions_of_a_vector_mask(t):
+        # the eigenvalue distances form a vector: np.flatnonzero(mask) and np.where(mask)[0] are the same positions
+        return t.replace(lambda x: isinstance(x, sp.Function) and x.func.__name__ == 'np.flatnonzero' and len(x.args) == 1,
+                         lambda x: sp.Function('idx')(sp.Function('np.where')(x.args[0]), sp.Integer(0)))
+    env, vn = result_term(prog, f, body, rewrites=[_positions_of_a_vector_mask])
     got = env.get('<return>')
-    renv, _ = result_term(prog, f, spelling.parse(MFPT_REF).body, param_map={'adjacency': f.params[0]})
+    renv, _ = result_term(prog, f, spelling.parse(MFPT_REF).body, param_map={'adjacency': f.params[0]}, rewrites=[_positions_of_a_vector_mask])
     want = renv.get('C')
     rep.ob('M.fundamental-matrix-formula', f, 'return %s' % str(got)[:120], got is not None and want is not None and _eq(got, want),
            'result differs from (diag(Z) - Z) / W with Z = inv(I - P + W), P row-normalised, W the stationary distribution repeated in rows', line=f.node.lineno)
